@@ -184,8 +184,12 @@ OnFlood ==
   /\ Is("flood") /\ conn[Ev.c].st = "served"
   /\ conn' = [conn EXCEPT ![Ev.c].st = "flooding"]
   /\ UNCHANGED <<sc, up, tracker, nextId, pend, evp, db, exp, cur>> /\ Step
+\* (the flooded session keeps executing its backlog concurrently with everything else, so its reads may
+\* appear anywhere; they are reads of the flooded block only)
 OnFloodReads ==
-  /\ (Is("reads") \/ Is("flood_done")) /\ exp = <<>> /\ (\E c \in 0..63 : conn[c].st = "flooding")
+  /\ \/ Is("flood_done")
+     \/ Is("reads") /\ Ev.t = 2 /\ Ev.s + Ev.n <= 125
+  /\ (\E c \in 0..63 : conn[c].st = "flooding")
   /\ UNCHANGED <<sc, up, tracker, nextId, conn, pend, evp, db, exp, cur>> /\ Step
 
 OnPartial ==
